@@ -240,8 +240,11 @@ impl Opcode for JumpI {
                 }?;
 
                 // If it is an error that only affects the potential _target_ thread, we need to
-                // store it and continue execution on the current thread.
-                vm.store_error(result);
+                // store it and continue execution on the current thread. As for `JUMP`, these
+                // jump-target errors are not recorded when permissive errors are enabled.
+                if !vm.config().permissive_errors {
+                    vm.store_error(result);
+                }
                 Ok(())
             }
         }
